@@ -136,6 +136,15 @@ class Ctx:
             for i, line in enumerate(src.split('\n')):
                 if BANNED.search(line): hits.append('%s: %s' % (os.path.relpath(path, LEAN), line.strip()[:80]))
         self.oblige('lean:text-audit(no sorry/admit/axiom/native_decide/bv_decide/implemented_by/unsafe)', not hits, '; '.join(hits[:5]))
+        # thorough tier: the toolchain's independent re-checker replays the compiled property modules (and everything they import) in the kernel
+        if self.tier == 'thorough':
+            import concurrent.futures
+            def one(m):
+                rc, out = sh(['lake', 'env', 'leanchecker', m], cwd=LEAN, timeout=2400)
+                return m, rc, out
+            with concurrent.futures.ThreadPoolExecutor(max_workers=8) as ex:
+                for m, rc, out in ex.map(one, modules):
+                    self.oblige('lean:leanchecker:' + m, rc == 0, out[-300:].replace('\n', ' '))
         return thms
 
     # ---- step 3: harness
